@@ -133,6 +133,7 @@ def hostMethodSig : String → String → Option Sig
   | "Math", "ceil" | "Math", "trunc" | "Math", "round" => some (anyN 1)
   | "JSON", "stringify" => some (anyN 1)
   | "JSON", "parse" => some { fixed := [.gostr] }
+  | "Object", "keys" => some (anyN 1)
   | _, _ => none
 
 /-- index of `needle` in `hay` (strings.Index), on code points -/
@@ -292,6 +293,10 @@ def callHostMethod (host name : String) (args : List Val) : M Val := do
   | "JSON", "stringify", [v] => do
     let s ← ofOpt (marshal h (strFuel h) v) "json.Marshal outside domain"
     pure (.S s)
+  | "Object", "keys", [.map a] => do
+    -- js_object.go Keys: a NEW array with the keys in lexical order; the object itself (its own key order) is untouched
+    let ks := sortKeys ((h.getMap a).items.map (·.1))
+    allocArr (ks.map Val.S)
   | _, _, _ => domainErr s!"host method {host}.{name}"
 
 end Pug.Tpl
@@ -595,6 +600,7 @@ def callBuiltin (name : String) (args : List Val) : M Val := do
           allocArr ((List.range (m - o).toNat).map fun (i : Nat) => Val.N ((o + (i : Int) : Int) : Rat))
       | "Math", [] => pure (.host "Math")
       | "JSON", [] => pure (.host "JSON")
+      | "Object", [] => pure (.host "Object")
       | _, _ => domainErr s!"function {name}"
 
 mutual
